@@ -170,6 +170,10 @@ def stop_scenarios(seed, tier):
     for inside in (False, True):
         for sources in (0, 1, 3):
             yield {'kind': 'stop', 'inside': inside, 'sources': sources, 'timeout': 30}
+    # a deferred one-shot (and a three-shot) that is armed but has not fired when stop() runs; a backlog behind the
+    # step that calls stop()
+    yield {'kind': 'stop', 'inside': False, 'sources': 1, 'pending_shots': [1, 3], 'timeout': 30}
+    yield {'kind': 'stop', 'inside': True, 'sources': 0, 'backlog': 5, 'timeout': 30}
 
 
 def run_stop(sc):
@@ -179,6 +183,8 @@ def run_stop(sc):
 
     def extra(chart, e):
         if e.signal_name == 'C12_STOP_YOURSELF':
+            for i in range(sc.get('backlog', 0)):
+                chart.post_fifo(Event(signal='C12_WORK'))        # queued behind the step that stops the object
             chart.stop()
     ao, fn = make_ao('c12', log, handler_extra=extra)
     other_log = []
@@ -190,6 +196,8 @@ def run_stop(sc):
         names = ['C12_T%d' % (i % 2) for i in range(sc['sources'])]
         for nm in names:
             ao.post_fifo(Event(signal=nm), period=0.05, times=0, deferred=True)
+        for k, shots in enumerate(sc.get('pending_shots', [])):
+            ao.post_fifo(Event(signal='C12_LATE%d' % k), period=0.5, times=shots, deferred=True)
         flags = [pe.task_run_event for pe in ao.posted_events_queue]
         time.sleep(0.12)
         if sc['inside']:
@@ -213,6 +221,14 @@ def run_stop(sc):
         time.sleep(0.2)
         if len(log) != n_steps:
             return False, 'a run-to-completion step ran after stop()', 'run_event'
+        if sc.get('backlog') and any(x[0] == 'C12_WORK' for x in log):
+            return False, 'events queued behind the step that called stop() were still dispatched: %d' % (
+                sum(1 for x in log if x[0] == 'C12_WORK')), 'run_event'
+        if sc.get('pending_shots'):
+            time.sleep(0.6)
+            late = [e.signal_name for e in ao.queue.deque if e.signal_name.startswith('C12_LATE')]
+            if late:
+                return False, 'a timed source that was pending at stop() posted afterwards: %s' % late, 'runner:cancel'
         ticks = [e.signal_name for e in ao.queue.deque].count('C12_T0')
         time.sleep(0.15)
         if [e.signal_name for e in ao.queue.deque].count('C12_T0') != ticks:
